@@ -1,12 +1,43 @@
 CHECK = {
     "level": "exploration",
-    "rule": ("E4 lattice: every log-uniform grid (N knots x [Emin,Emax]) x value shape x prime index is "
-             "built through the real ValueGrid*Builder/Inserter and queried at every knot (4 roundings "
-             "of it) +-k ulp, bin mid/quarter points, grid ends, far outside; every result of the real "
-             "calculators is compared with a long-double oracle. non-trivial = a distinct grid "
-             "configuration that executed."),
-    "assumptions": [],
-    "bounds": {"quick": {}, "thorough": {}},
+    "rule": ("E4 lattice, nothing sampled. Every log-uniform grid (N knots x [Emin,Emax]) x value shape "
+             "{const,inc,dec,peak,steep,zero-first-knot} x prime index {none, every knot (N<=9) / boundary "
+             "subset (N>9)} is built through the real ValueGridXsBuilder/ValueGridLogBuilder (constructor "
+             "and from_geant/from_scaled/from_range) + ValueGridInserter and queried with the real "
+             "XsCalculator(=EnergyLossCalculator)/UniformGrid::find/RangeCalculator/InverseRangeCalculator/"
+             "GenericCalculator at: every knot in 4 roundings +-k ulp, fixed and geometric interior points of "
+             "every bin, grid ends, 1e-300..1e300. Oracle in long double from the documented definition: "
+             "knot reproduction, betweenness, continuity, documented extrapolation, range/inverse-range "
+             "monotone + both round trips. calc_mean_energy_loss/range_to_step run on real "
+             "PhysicsParams+ParticleTrackView+PhysicsTrackView (own Process with dE/dx tables and range = "
+             "exact integral) over energies x steps in (0,range] x linear_loss_limit; MscStepToGeo/"
+             "MscStepFromGeo with the real UrbanMscHelper over energies x mfp tables x true-path x geo-path "
+             "lattices. Every table sits between sentinels in the shared reals pool and every object is "
+             "built twice with different sentinels: a bitwise difference of any result = read outside the "
+             "table. Tolerances come from a stated rounding model (harness header). non-trivial = a distinct "
+             "grid/table configuration (case id) that executed; branch_tags count the code regimes reached."),
+    "assumptions": [
+        "host build, double precision; CELERITAS_DEBUG off, so the harness itself respects every "
+        "CELER_EXPECT (energy>0, 0<step<=range, range<=table end, gstep<=geo<=true, monotone range tables "
+        "for InverseRangeCalculator)",
+        "values between lattice points are not covered (continuous input space, DESIGN.md section 7)",
+        "monotonicity of the mean loss in the step is claimed inside one regime (linear / inverse-range) "
+        "for every table and across the linear_loss_limit switch only for the exactly linear table "
+        "(constant dE/dx, range = E/k, E inside the table): for other tables the library's two formulas "
+        "differ by the table's discretisation error at the switch, which is by design (Geant4 does the same)",
+        "loss == E at step == range is claimed when step*dE/dx >= linear_loss_limit*E (the documented "
+        "condition of the early return)",
+        "lambda(start) == lambda(end) bitwise (alpha == 0 in MscStepToGeo's endpoint branch) is a "
+        "measure-zero input and is skipped (tagged); MscStepFromGeo is only called with gstep <= geo",
+    ],
+    "bounds": {
+        "quick": {"grids": 9, "knots": [2, 3, 4, 5, 8, 9, 17], "knot_ulps": 24, "bin_points": "8+3",
+                  "xs_shapes": 6, "range_shapes": 6, "eloss_shapes": 4, "linear_loss_limit": [0.001, 0.01, 0.5],
+                  "msc_mfp_tables": 4},
+        "thorough": {"grids": 20, "knots": [2, 3, 4, 5, 6, 7, 8, 9, 17, 33, 85], "knot_ulps": 64,
+                     "bin_points": "8+15", "xs_shapes": 6, "range_shapes": 6, "eloss_shapes": 4,
+                     "linear_loss_limit": [0.001, 0.01, 0.5, 1.0], "msc_mfp_tables": 4},
+    },
     "parts": [
         {"name": "tables", "harness": "c14_tables", "flavour": "rel",
          "shards": {"quick": 16, "thorough": 16}, "deadline": {"quick": 90, "thorough": 1100}},
@@ -15,8 +46,20 @@ CHECK = {
 
 META = {
     "engine": "E4 lattice enumerator (harness/c14_tables.cc)",
-    "design_ref": "DESIGN.md section 3, C14",
-    "technique": "bounded-exhaustive enumeration of grid x table x query lattices against long-double oracles",
-    "text": "",
-    "note": "",
+    "design_ref": "DESIGN.md section 3, C14 (and section 5 item 5)",
+    "technique": "bounded-exhaustive enumeration of grid x table x query lattices derived from the objects "
+                 "under test (every knot +-k ulp, every regime threshold +-1 ulp), long-double oracles, "
+                 "differential sentinels for out-of-table reads",
+    "text": ("Small-scope decision of the table-lookup property: all grids/tables/queries of a stated finite "
+             "alphabet are run through the real builders, calculators, physics track views and MSC path "
+             "converters; each result is compared with an independent long-double re-derivation of the "
+             "documented behaviour with tolerances from an explicit rounding model. The alphabet contains "
+             "one representative per branch of the anchored code (below/in/above grid, scaled/unscaled/prime "
+             "bin, sqrt and square extrapolations, linear vs inverse-range loss, step == range, small-step / "
+             "constant-xs / alpha=1/range / endpoint-mfp MSC regimes with alpha>0 and alpha<0, clamps) and "
+             "the adversarial roundings around every knot and threshold."),
+    "note": ("Trusts glibc long double log/exp/pow/expm1 as the reference. Monotonicity across the "
+             "linear-loss switch and loss==E at step==range are only claimed where the documentation implies "
+             "them (see assumptions). UniformGrid::find over-read (fixed in /repo by 07855eb) is re-found "
+             "as grid:/xs:/range:/eloss:/msc:read-past-end when that commit is reverted."),
 }
